@@ -178,6 +178,14 @@ func TestC09(t *testing.T) {
 		rec.Sample(map[string]any{"script": gc.Name, "events": len(res.Events)})
 		if msg := k.check(c, harness.Opts{}, true); msg != "" {
 			nviol++
+			if strings.HasPrefix(msg, "data race") || strings.HasPrefix(msg, "deadlock") {
+				// the reducer re-runs golua without a watchdog: do not hand it a program that hangs
+				rec.Violation("program", c, msg+"\n--- script "+gc.Name+" ---\n"+progcheck.Numbered(src))
+				if strings.HasPrefix(msg, "deadlock") {
+					nviol = 5 // every further hang costs two watchdog periods
+				}
+				continue
+			}
 			red := progcheck.Reduce(gc.Block, nil, harness.Opts{}, 300)
 			if m2, c2, def := progcheck.Check(red, nil, harness.Opts{}); def && m2 != "" {
 				c2.Note = gc.Name
